@@ -19,6 +19,14 @@ def jobs(ctx):
         if not q:
             out.append(Job(REL, PKG, H, "VerifC22Front", {"tmpl": t, "back": 0, "k": 2, "overwrite": 0, "ascii": 1}, flags=FL, tag="front end tmpl=%d k=2" % t, cost=400, deadline=3000))
     out.append(Job(REL, PKG, H, "VerifC22Front", {"tmpl": 0, "back": 0, "k": 1, "overwrite": 0, "ascii": 1}, flags=FL, tag="front end twin", twin=True))
+    # the compile stages on eight grammar texts with one byte chosen by the solver (regexp escapes and classes, %input, lookahead flags,
+    # lexeme attributes, rule operators, options, start conditions)
+    FC = ["-looplimit", "10000000", "-conccap", "300", "-maxinstrs", "400000000"]
+    for t in range(8):
+        for co in (0,) if q else (0, 1):
+            out.append(Job("compiler", "compiler", "c22_compile.go", "VerifC22Compile", {"tmpl": t, "ascii": 1 if q else 0, "checkonly": co}, flags=FC,
+                           tag="compile tmpl=%d checkonly=%d" % (t, co), cost=20))
+    out.append(Job("compiler", "compiler", "c22_compile.go", "VerifC22Compile", {"tmpl": 0, "ascii": 1, "checkonly": 0}, flags=FC, tag="compile twin", twin=True))
     return out
 
 
@@ -27,10 +35,15 @@ def describe(ctx):
         "explanation": "(1) ast.lineOffsets + Node.LineColumn/SourceRange on a symbolic text and offset: line and column must be those of the byte offset. (2) the grammar front end "
                        "(tm Lexer with its actions, TokenStream, the generated tm Parser with StopOnFirstError, the tree builder) runs on eight grammar texts in which one or two symbolic "
                        "bytes are inserted or overwrite the text 0..8 bytes before the end: no panic or process exit; a failure is a tm.SyntaxError whose range lies inside the text "
-                       "and whose line matches its offset; a success yields a tree spanning the text.",
-        "bounds": {"line/column": "texts of <=4 (6) free bytes, every offset", "front end": "8 templates x hole 0/2 (thorough 0..8) bytes before the end, 1 (2) symbolic bytes"},
-        "outside": ["the compile stages proper (options, lexer, syntax, expand, lalr): pointer-rich whole-program code that is run only concretely, through the corpora of the other "
-                    "properties; their diagnostics' ranges and their log.Fatal sites are NOT covered", "mutations in the middle of larger grammars"],
+                       "and whose line matches its offset; a success yields a tree spanning the text. (3) compiler.Compile (options, lexer, syntax loader, templates, expansion, LALR) on eight "
+                       "grammar texts in which one byte is free (inside a regexp escape, a character class, an %input directive, a rule next to an unprovided lookahead flag, a lexeme "
+                       "attribute, a rule body, an option name, a start-condition list): no panic, no process exit (log.Fatal is a violation), and every reported problem names the file "
+                       "and has a range inside the text whose line and column agree with its byte offset. In (3) the byte values are enumerated by the executor through solver "
+                       "concretisation; every run is concrete afterwards.",
+        "bounds": {"line/column": "texts of <=4 (6) free bytes, every offset", "front end": "8 templates x hole 0/2 (thorough 0..8) bytes before the end, 1 (2) symbolic bytes",
+                   "compile": "8 templates x 1 free byte (ASCII quick, all 256 values thorough; thorough also with CheckOnly)"},
+        "outside": ["grammar texts beyond the templates: the compile stages are pointer-rich whole-program code and are covered only on the eight one-byte families above (and, for valid "
+                    "grammars, through the corpora of the other properties); most of their diagnostics and log.Fatal sites are NOT covered", "mutations in the middle of larger grammars"],
         "trusted": ["go/ssa", "symgo executor", "z3"],
         "assumptions": [],
     }
